@@ -362,6 +362,10 @@ func (r *rpRun) checkProbes(res *Result, faults bool) {
 			res.nontrivial(okey + "#" + strconv.Itoa(pi))
 		} else if nf > 1 {
 			res.violate("Replay flushed more than once", "replay:flush:"+mode, rpDetail(b, p, ks, w, err))
+		} else if b.Kind == "finite" && cls == "buffered" && nf != 1 {
+			// C08: "Replay with the ID of a buffered event sends exactly the later buffered events whose topics intersect ..., then
+			// flushes" - also when none of the later events matches the subscription's topics
+			res.violate(fmt.Sprintf("Replay from a buffered ID whose later events match no topic of the subscription did not flush (log %v)", w.log), "replay:flush-empty:"+mode, rpDetail(b, p, ks, w, err))
 		}
 		// every message keeps the ID it was given at Put
 		for i, m := range w.sent {
